@@ -291,7 +291,7 @@ Section Eval.
     | RANotIn v l => Some (negb (match rget v e with Some s => mem s l | None => false end))
     | RARegex v src =>
         match dec src with
-        | Some p => Some (match rget v e with Some s => negb (isnil s) && re_match p s | None => false end)
+        | Some p => Some (match rget v e with Some s => re_match p s | None => false end)
         | None => None
         end
     end.
